@@ -152,6 +152,11 @@ struct Case {
     anc_status: String,
     anc_manifest: String,
     anc_extra: Vec<AP>,
+    /// what the served ancillary archive holds at the manifest-listed path `ledger/1`: "file" (the
+    /// regular file), "dir" (a directory with unlisted children), "link_in_same" / "link_in_other"
+    /// (a symbolic link to a file inside the archive with the vouched / another content),
+    /// "link_out_same" (a symbolic link to a file outside the unpack directory with the vouched content)
+    anc_at: String,
     zstd: bool,
     pred_result: String,
     pred_final: Option<BTreeMap<String, String>>, // real path -> origin
@@ -311,9 +316,38 @@ impl Runner {
             Some(b) => entries.push(TarEntry::File("ancillary_manifest.json".into(), b)),
             None => entries.push(TarEntry::File("ancillary_manifest.json".into(), serde_json::to_vec(&mj).unwrap())),
         }
+        // the kind of entry found at the listed path ledger/1
+        let mut late: Vec<TarEntry> = vec![];
+        if c.anc_at != "file" {
+            let genuine_ledger = files.remove("ledger/1");
+            match c.anc_at.as_str() {
+                "dir" => {
+                    for child in ["ledger/1/evil-state", "ledger/1/tables/evil-tvar"] {
+                        late.push(TarEntry::File(child.into(), tagged("ancx", child)));
+                    }
+                }
+                "link_in_same" => {
+                    if let Some(b) = genuine_ledger {
+                        late.push(TarEntry::File("extra/anclink-ledger-copy".into(), b));
+                    }
+                    late.push(TarEntry::Symlink("ledger/1".into(), "../extra/anclink-ledger-copy".into()));
+                }
+                "link_in_other" => late.push(TarEntry::Symlink("ledger/1".into(), "../volatile/blocks-0.dat".into())),
+                "link_out_same" => {
+                    // a file that exists outside the unpack directory (e.g. left there before)
+                    let outside = sandbox.join("outside-anc").join("anclink-ledger-copy");
+                    if let Some(b) = genuine_ledger {
+                        write_file(&outside, &b);
+                    }
+                    late.push(TarEntry::Symlink("ledger/1".into(), outside.to_string_lossy().into_owned()));
+                }
+                k => panic!("unknown entry kind {k}"),
+            }
+        }
         for (rel, body) in files {
             entries.push(TarEntry::File(rel, body));
         }
+        entries.extend(late);
         push_extras(&mut entries, &c.anc_extra, "ancx", sandbox);
         AncBuilt { bytes: Some(compress(build_tar(&entries), c.zstd)), genuine, genuine_signature }
     }
@@ -341,13 +375,47 @@ impl Runner {
             out
         };
         let mut files: BTreeMap<String, Vec<u8>> = BTreeMap::new();
+        let mut links: BTreeMap<String, String> = BTreeMap::new();
         let mut ar = tar::Archive::new(&tar_bytes[..]);
         for e in ar.entries().unwrap() {
             let mut e = e.unwrap();
             let p = e.path().unwrap().to_string_lossy().into_owned();
+            if e.header().entry_type().is_symlink() {
+                links.insert(p, e.link_name().unwrap().unwrap().to_string_lossy().into_owned());
+                continue;
+            }
             let mut b = vec![];
             std::io::Read::read_to_end(&mut e, &mut b).unwrap();
             files.insert(p, b);
+        }
+        // a listed path that is a symbolic link is read through the link, as a reader of the unpacked
+        // archive would (what is judged is the content reached under the listed path; the link entry
+        // itself is judged as a kept entry)
+        for (p, t) in &links {
+            let bytes = if t.starts_with('/') {
+                std::fs::read(t).ok()
+            } else {
+                let mut parts: Vec<&str> = p.split('/').collect();
+                parts.pop();
+                for comp in t.split('/') {
+                    match comp {
+                        ".." => {
+                            parts.pop();
+                        }
+                        "." | "" => {}
+                        c => parts.push(c),
+                    }
+                }
+                files.get(&parts.join("/")).cloned()
+            };
+            if let Some(b) = bytes {
+                files.entry(p.clone()).or_insert(b);
+            }
+        }
+        // a listed path under which the archive has further entries is a directory
+        let dirs: Vec<String> = files.keys().filter_map(|k| a.genuine.keys().find(|g| k.starts_with(&format!("{g}/"))).cloned()).collect();
+        for d in dirs {
+            files.remove(&d);
         }
         let Some(mb) = files.get("ancillary_manifest.json") else { return "invalid" };
         let Ok(m) = serde_json::from_slice::<Value>(mb) else { return "invalid" };
@@ -437,6 +505,12 @@ impl Runner {
             ImmutableFileRange::Range(c.lo, c.hi)
         };
         let options = DownloadUnpackOptions { allow_override: c.allow_override, include_ancillary: c.anc, max_parallel_downloads: 1 };
+        // what exists in the sandbox outside the target before the call (placed by this harness)
+        let outside_before: BTreeMap<String, Vec<u8>> = list_recursive(&sandbox)
+            .into_iter()
+            .filter(|r| !r.starts_with("target/") && !r.ends_with('/'))
+            .filter_map(|r| std::fs::read(sandbox.join(&r)).ok().map(|b| (r, b)))
+            .collect();
         // --- the real client ---
         let cdb = self.client.cardano_database_v2();
         let rt = &self.rt;
@@ -473,12 +547,18 @@ impl Runner {
             let rel = inside.unwrap_or(rel_sb).to_string();
             let (mut origin, from) = origin_of(&bytes);
             if is_link {
+                // a symbolic link is no file; who placed it is told by where it points (the immutable
+                // archives' link points to <sandbox>/outside, the ancillary one's to an anclink-* file)
                 cls = "symlink".into();
-                origin = "imm_archive".into();
+                let to = std::fs::read_link(&full).map(|t| t.to_string_lossy().into_owned()).unwrap_or_default();
+                origin = if to.contains("anclink") || to.contains("blocks-0.dat") { "anc_link".into() } else { "imm_archive".into() };
             }
             // the client's own bootstrap markers are recognised by their content
             if origin == "unknown" && ((cls == "clean" && bytes.is_empty()) || (cls == "magic" && bytes == expected_magic.as_bytes())) {
                 origin = "client".into();
+            }
+            if inside.is_none() && outside_before.get(rel_sb) == Some(&bytes) {
+                continue; // untouched file of the harness outside the target
             }
             let held_before = inside.is_some() && pre_files.get(&rel).map(|b| *b == bytes).unwrap_or(false);
             let vouched = inside.is_some() && anc.genuine.get(&rel).map(|h| *h == sha256_hex(&bytes)).unwrap_or(false);
@@ -526,7 +606,7 @@ impl Runner {
         }
         self.trace.emit(json!({
             "ev": "Restore", "case": ix, "label": c.label, "N": c.n, "lo": c.lo, "hi": c.hi, "includeAnc": c.anc, "override": c.allow_override,
-            "net": c.net, "conflict": c.conflict, "manifest": c.anc_manifest, "ancStatus": c.anc_status, "ancGenuine": anc_genuine, "ancManifest": anc_manifest_class,
+            "net": c.net, "conflict": c.conflict, "manifest": c.anc_manifest, "ancAt": c.anc_at, "ancStatus": c.anc_status, "ancGenuine": anc_genuine, "ancManifest": anc_manifest_class,
             "compression": algo, "res": res, "err": err_short, "files": kept.len(), "dirs": dirs,
             "pred_result": c.pred_result, "pred_match": pred_match, "pred_diff": diff,
         }));
@@ -560,6 +640,7 @@ fn case_of_json(v: &Value, ix: u64) -> Case {
     let origin = |s: &Value| -> String {
         match s["src"].as_str().unwrap() {
             "imm" => "imm_archive".to_string(),
+            "anclink" => "anc_link".to_string(),
             x => x.to_string(),
         }
     };
@@ -585,6 +666,7 @@ fn case_of_json(v: &Value, ix: u64) -> Case {
         anc_status: v["ancArch"]["status"].as_str().unwrap().into(),
         anc_manifest: v["ancArch"]["manifest"].as_str().unwrap().into(),
         anc_extra: aps(&v["ancArch"]["extra"]),
+        anc_at: v["ancArch"]["at"].as_str().unwrap_or("file").into(),
         zstd: ix % 2 == 1,
         pred_result: v["predResult"].as_str().unwrap().into(),
         pred_final,
@@ -644,6 +726,7 @@ fn random_case(r: &mut ChaCha20Rng, ix: u64) -> Case {
         anc_status: if below(r, 10) == 0 { "missing".into() } else { "ok".into() },
         anc_manifest: variants[below(r, variants.len() as u64) as usize].into(),
         anc_extra: if below(r, 3) == 0 { some(r, 3).into_iter().filter(|p| p.cls != "manifest").collect() } else { vec![] },
+        anc_at: ["file", "file", "file", "file", "dir", "link_in_same", "link_in_other", "link_out_same"][below(r, 8) as usize].into(),
         zstd: ix % 2 == 1,
         pred_result: "none".into(),
         pred_final: None,
@@ -689,7 +772,7 @@ fn main() {
             let honest = |i: u64| ArchSpec { i, status: "ok".into(), extra: vec![] };
             let basecase = Case {
                 n: 3, lo: 2, hi: 3, anc: false, allow_override: false, net: "known".into(), conflict: false, pre: vec![],
-                arch: vec![honest(2), honest(3)], anc_status: "ok".into(), anc_manifest: "ok".into(), anc_extra: vec![], zstd: false,
+                arch: vec![honest(2), honest(3)], anc_status: "ok".into(), anc_manifest: "ok".into(), anc_extra: vec![], anc_at: "file".into(), zstd: false,
                 pred_result: "none".into(), pred_final: None, label: String::new(),
             };
             let mut c1 = basecase.clone();
@@ -707,7 +790,16 @@ fn main() {
             let mut c5 = basecase.clone();
             c5.label = "archive of immutable 3 ends with a symlink leaving the target and a file through it".into();
             c5.arch[1].extra = vec![ap("symlink", 0, "")];
-            for (i, c) in [c1, c2, c3, c4, c5].iter().enumerate() {
+            let mut more = vec![];
+            for k in ["dir", "link_in_same", "link_in_other", "link_out_same"] {
+                let mut c = c2.clone();
+                c.anc_at = k.into();
+                c.label = format!("genuine signed manifest, but the archive holds at the listed path ledger/1: {k}");
+                more.push(c);
+            }
+            let mut all = vec![c1, c2, c3, c4, c5];
+            all.extend(more);
+            for (i, c) in all.iter().enumerate() {
                 run.run_case(i as u64, c);
             }
             run.trace.finish();
